@@ -358,7 +358,7 @@ func rezero(b *decl.Built) {
 			continue
 		}
 		if o.Initial != nil {
-			v.Set(reflect.ValueOf(o.Initial).Convert(v.Type()))
+			v.Set(decl.CopyInitial(reflect.ValueOf(o.Initial).Convert(v.Type())))
 		} else {
 			v.Set(reflect.Zero(v.Type()))
 		}
